@@ -1,6 +1,7 @@
 import ACModel.Props.C11
 import ACModel.Model.Carve
 import ACModel.Props.C14
+import ACModel.Proofs.Measures
 /-
   C15 — Feature selection is invariant under re-encodings that keep the information
 
@@ -10,13 +11,16 @@ import ACModel.Props.C14
   monotone in, the target is always among the returned features of its type."
 
   The selection logic (`Select.selectType`) is a function of the measure table and of the pairwise
-  associations only, so it suffices that those are invariant.  Proved here for the rank-based
-  quantities (Kruskal–Wallis, Spearman): average ranks, hence rank sums and the tie correction, are
-  unchanged by any strictly increasing re-encoding of the values, and are reflected
-  (`rank ↦ n + 1 − rank`) by negation.  χ²-based measures only see the contingency counts, which
-  renaming categories does not change.  The remaining steps (H and |ρ| under the reflection, the
-  real selectors end to end, the target-copy clause) are decided by the metamorphic runs of
-  `harness/c15.py` (partial).
+  associations only, so it suffices that those are invariant.  Proved here, on the exact measures
+  of `Model/Measures.lean`: Kruskal–Wallis H is unchanged by any strictly increasing re-encoding
+  of the values (`kruskal_invariant_strictMono`: positive rescaling, shifts) and by negation
+  (`kruskal_invariant_neg`: ranks are reflected, `rank ↦ n + 1 − rank`, and the rank sums add up to
+  n(n+1)/2); Pearson's r² is unchanged by every affine map `a·x + b`, `a ≠ 0`
+  (`pearson_sq_invariant_affine`), Spearman's ρ² by strictly increasing maps and by negation.
+  χ²-based measures only see the contingency counts, which renaming categories does not change.
+  The real selectors end to end, row / column permutations, and the target-copy clause are decided
+  by the metamorphic runs of `harness/c15.py` (partial); the driver's exact values of these
+  measures are compared with the selectors' own values on every C14 / C15 case.
 -/
 
 namespace C15
@@ -95,10 +99,79 @@ theorem kruskalH_congr (rows rows' : List Row) (tie : Rat) (h : rows.map (fun r 
   unfold kruskalH
   simp only [hn, hany, hsum]
 
+/-! ## The measures themselves -/
+
+open Measures MeasureLemmas in
+/-- **Kruskal–Wallis H is invariant under strictly increasing re-encodings of the variable**
+    (positive rescaling, shifts, any monotone transform): same groups, same H, exactly. -/
+theorem kruskal_invariant_strictMono {f : Rat → Rat} (hf : StrictMono f) (groups : List (List Rat)) :
+    kruskalOfGroups (groups.map (fun g => g.map f)) = kruskalOfGroups groups := by
+  rw [kruskalOfGroups_eq, kruskalOfGroups_eq]
+  have hall : (groups.map (fun g => g.map f)).flatten = groups.flatten.map f := by rw [List.map_flatten]
+  rw [hall, tieCorrection_map_inj f (fun a b h => hf.inj h)]
+  congr 1
+  simp only [rowsOf, List.map_map]
+  apply List.map_congr_left
+  intro g _
+  simp only [Function.comp, List.length_map, List.map_map]
+  congr 1
+  congr 1
+  apply List.map_congr_left
+  intro v _
+  exact avgRank_strictMono hf groups.flatten v
+
+open Measures MeasureLemmas in
+/-- **Kruskal–Wallis H is invariant under negation of the variable.** -/
+theorem kruskal_invariant_neg (groups : List (List Rat)) :
+    kruskalOfGroups (groups.map (fun g => g.map (fun x => -x))) = kruskalOfGroups groups :=
+  kruskalOfGroups_neg groups
+
+open Measures MeasureLemmas in
+/-- **Pearson's r² is invariant under every affine re-encoding `a·x + b` with `a ≠ 0`**
+    (negation: `a = −1`; positive rescaling and shifts), so the ranking by |r| and the comparison
+    of |r| with `thresh_corr` do not change. -/
+theorem pearson_sq_invariant_affine (a b : Rat) (ha : a ≠ 0) (xs ys : List Rat) (h : xs.length = ys.length) :
+    (pearsonSq (xs.map (fun x => a * x + b)) ys).map (·.1) = (pearsonSq xs ys).map (·.1) := by
+  rw [pearsonSq_affine a b ha xs ys h]
+  cases pearsonSq xs ys <;> rfl
+
+open Measures MeasureLemmas in
+/-- **Spearman's ρ (sign included) is invariant under strictly increasing re-encodings**: it only
+    sees the ranks. -/
+theorem spearman_invariant_strictMono {f : Rat → Rat} (hf : StrictMono f) (xs ys : List Rat) :
+    spearmanSq (xs.map f) ys = spearmanSq xs ys := by
+  unfold spearmanSq
+  congr 1
+  rw [List.map_map]
+  apply List.map_congr_left
+  intro v _
+  exact avgRank_strictMono hf xs v
+
+open Measures MeasureLemmas in
+/-- **Spearman's ρ² is invariant under negation.** -/
+theorem spearman_sq_invariant_neg (xs ys : List Rat) (h : xs.length = ys.length) :
+    (spearmanSq (xs.map (fun x => -x)) ys).map (·.1) = (spearmanSq xs ys).map (·.1) := by
+  unfold spearmanSq
+  have hr : (xs.map (fun x => -x)).map (avgRank (xs.map (fun x => -x))) =
+      (xs.map (avgRank xs)).map (fun r => (-1) * r + (((xs.length : Nat) : Rat) + 1)) := by
+    rw [List.map_map, List.map_map]
+    apply List.map_congr_left
+    intro v _
+    simp only [Function.comp]
+    rw [avgRank_neg]; grind
+  rw [hr]
+  exact pearson_sq_invariant_affine (-1) _ (by decide +kernel) _ _ (by simpa using h)
+
 /-! ## Non-vacuity -/
 example : avgRank [1, 5, 5, 9] 5 = 5 / 2 := by decide +kernel
 example : avgRank ([1, 5, 5, 9].map (fun x => 2 * x + 1)) (2 * 5 + 1) = 5 / 2 := by decide +kernel
 example : StrictMono (fun x => 2 * x + 1) := affine_strictMono 2 1 (by decide +kernel)
+-- three classes with ties: H = 7/2 / tie correction, the same after x ↦ −x and after x ↦ 2x + 1
+example : Measures.kruskalOfGroups [[1, 2, 2], [2, 5], [7, 9]] = Measures.kruskalOfGroups [[-1, -2, -2], [-2, -5], [-7, -9]] := by
+  decide +kernel
+example : (Measures.kruskalOfGroups [[1, 2, 2], [2, 5], [7, 9]]).isSome = true := by decide +kernel
+example : (Measures.pearsonSq [1, 2, 4, 7] [3, 1, 4, 1]).map (·.1) = (Measures.pearsonSq [-1, -2, -4, -7] [3, 1, 4, 1]).map (·.1) := by
+  decide +kernel
 
 /-! ## The clause "an exact copy of the target is always returned" is false for a binary target
 
